@@ -31,8 +31,24 @@ def unit_spec(u):
     return os.path.join(ROOT, "contracts", u + ".vspec")
 
 
+def unit_closure(units):
+    """the units and, first, everything they include (each function is verified in its defining unit's run;
+    an including unit sees only the contracts of included functions)"""
+    out = []
+
+    def visit(u):
+        if u in out or not os.path.exists(unit_spec(u)):
+            return
+        for i in X.parse_spec(unit_spec(u)).includes:
+            visit(i)
+        out.append(u)
+    for u in units:
+        visit(u)
+    return out
+
+
 def available_units(pid):
-    return [u for u in PROPERTY_UNITS[pid] if os.path.exists(unit_spec(u))]
+    return unit_closure([u for u in PROPERTY_UNITS[pid] if os.path.exists(unit_spec(u))])
 
 
 # ----------------------------------------------------------------------------- running verus
@@ -254,7 +270,11 @@ def scan_trust(path):
         if s.startswith("//"):
             continue
         code = s.split("//")[0]
+        if "/*included:" in code:
+            continue        # proved in its own unit's run of the same check, not an assumption
         for t in TRUST_TOKENS:
+            if t == "axiom" and "fn axiom" not in code:
+                continue    # a *use* of an axiom, not its declaration
             if t in code:
                 # describe it by the item that follows
                 desc = code
